@@ -1,7 +1,7 @@
 SPEC = {
     "id": "C15",
     "components": [
-        {"comp": "sim_c15", "module": "QV.Sys.MonC15", "quick": 160, "thorough": 4000},
+        {"comp": "sim_c15", "module": "QV.Sys.MonC15", "quick": 480, "thorough": 4000},
     ],
     "assumptions": [
         "the model covers a connection in state Established whose datagrams are single short-header packets; a coalesced datagram is covered only by the simulator-level byte ledger",
